@@ -73,6 +73,13 @@ def compare(ev, pattern, L, mn_full=None, op_full=None, modes=("bool", "list"), 
                 ev.dev("verdict", mode="list", expected=exp, observed=got[:3], **ctx)
             pos = 0
             for t in got:
+                if t == "":
+                    # an empty match is legitimate only for a rule that can match the empty sequence
+                    if not Ref([], bool(mn_full), bool(op_full), any_macro=any_macro).spans_empty(pattern):
+                        ev.dev("empty-match", **ctx)
+                        reported = None
+                        break
+                    continue
                 ij = locate(t, records, table, pos)
                 if ij is None:
                     ev.dev("match-not-a-window", observed=t, **ctx)
